@@ -156,8 +156,12 @@ class LFRicInvoke(Invoke):
         # all loops in this Invoke
         self.loop_bounds = LFRicLoopBounds(self)
 
-        # Extend argument list with stencil information
-        self._alg_unique_args.extend(self.stencil.unique_alg_args)
+        # Extend argument list with stencil information. An expression
+        # that is already passed (e.g. an integer that is also a kernel
+        # scalar argument) is passed, and declared, only once.
+        self._alg_unique_args.extend(
+            text for text in dict.fromkeys(self.stencil.unique_alg_args)
+            if text not in self._alg_unique_args)
 
         # Adding in qr arguments
         self._alg_unique_qr_args = []
@@ -165,7 +169,9 @@ class LFRicInvoke(Invoke):
             for rule in call.qr_rules.values():
                 if rule.alg_name not in self._alg_unique_qr_args:
                     self._alg_unique_qr_args.append(rule.alg_name)
-        self._alg_unique_args.extend(self._alg_unique_qr_args)
+        self._alg_unique_args.extend(
+            text for text in self._alg_unique_qr_args
+            if text not in self._alg_unique_args)
         # We also need to work out the names to use for the qr
         # arguments within the PSy-layer. These are stored in the
         # '_psy_unique_qr_vars' list.
@@ -277,9 +283,10 @@ class LFRicInvoke(Invoke):
         '''
         # Create the subroutine
         invoke_sub = SubroutineGen(parent, name=self.name,
-                                   args=self.psy_unique_var_names +
-                                   self.stencil.unique_alg_vars +
-                                   self._psy_unique_qr_vars)
+                                   args=list(dict.fromkeys(
+                                       self.psy_unique_var_names +
+                                       self.stencil.unique_alg_vars +
+                                       self._psy_unique_qr_vars)))
 
         # Declare all quantities required by this PSy routine (Invoke)
         for entities in [self.scalar_args, self.fields, self.lma_ops,
